@@ -673,7 +673,7 @@ func c14Stress(c *Ctx, rng *Rng, cfg c14StressCfg) (key string, nontrivial bool)
 	for _, cl := range classes {
 		o.addClose(cl)
 	}
-	o.workersLeft = int64(c14WaitNoWorkers(500 * time.Millisecond))
+	o.workersLeft = int64(c14WaitNoWorkers(5 * time.Second))
 	o.charged = atomic.LoadInt64(&charged)
 	sink.Drain()
 	// calls after Close: no-ops
